@@ -13,7 +13,6 @@ import (
 	"go/printer"
 	"go/token"
 	"go/types"
-	"os"
 	"path/filepath"
 	"regexp"
 	"sort"
@@ -142,13 +141,14 @@ func loadWorld() (*World, error) {
 	}
 	// contracts
 	for _, pk := range w.Order {
-		cf := filepath.Join(pk.Dir, "zz_contracts_verif.go")
-		if _, err := os.Stat(cf); err == nil {
+		cfs, _ := filepath.Glob(filepath.Join(pk.Dir, "zz_contracts*_verif.go"))
+		sort.Strings(cfs)
+		for _, cf := range cfs {
 			ds, err := parseContractFile(cf, pk.Path, pk.Name)
 			if err != nil {
 				return nil, err
 			}
-			pk.Decls = ds
+			pk.Decls = append(pk.Decls, ds...)
 			for _, d := range ds {
 				w.AllDecls = append(w.AllDecls, d)
 				switch d.Kind {
@@ -236,6 +236,8 @@ func divf(a, b int) int { q := a / b; if (a%b != 0) && ((a < 0) != (b < 0)) { q-
 func modf(a, b int) int { return a - b*divf(a, b) }
 func assert(b bool) { if !b { panic("ghost assert failed") } }
 func assume(b bool) {}
+func all(lo, hi int, f func(int) bool) bool { for i := lo; i <= hi; i++ { if !f(i) { return false } }; return true }
+func exists(lo, hi int, f func(int) bool) bool { for i := lo; i <= hi; i++ { if f(i) { return true } }; return false }
 func llen(l *list.List) int { return l.Len() }
 func lat[T any](l *list.List, i int) T { e := l.Front(); for ; i > 0; i-- { e = e.Next() }; return e.Value.(T) }
 func lhas[T comparable](l *list.List, v T) bool { for e := l.Front(); e != nil; e = e.Next() { if w, ok := e.Value.(T); ok && w == v { return true } }; return false }
@@ -288,6 +290,41 @@ func exprString(e ast.Node) string {
 // anchorStmt: the k-th (default first) top-level statement of fd that assigns variable name anywhere inside it.
 // name may be "v" or "v#k".
 func anchorStmt(fd *ast.FuncDecl, name string) ast.Stmt {
+	if name == "end" {
+		// the last top-level statement that is not a return
+		for i := len(fd.Body.List) - 1; i >= 0; i-- {
+			if _, isRet := fd.Body.List[i].(*ast.ReturnStmt); !isRet {
+				return fd.Body.List[i]
+			}
+		}
+		return nil
+	}
+	if strings.HasPrefix(name, "call:") {
+		// the first top-level statement that calls the named function
+		want := strings.TrimPrefix(name, "call:")
+		for _, s := range fd.Body.List {
+			hit := false
+			ast.Inspect(s, func(x ast.Node) bool {
+				if c, ok := x.(*ast.CallExpr); ok {
+					switch f := c.Fun.(type) {
+					case *ast.Ident:
+						if f.Name == want {
+							hit = true
+						}
+					case *ast.SelectorExpr:
+						if f.Sel.Name == want {
+							hit = true
+						}
+					}
+				}
+				return true
+			})
+			if hit {
+				return s
+			}
+		}
+		return nil
+	}
 	k := 1
 	if i := strings.Index(name, "#"); i >= 0 {
 		fmt.Sscan(name[i+1:], &k)
@@ -462,7 +499,10 @@ func (w *World) recheck(pk *Pkg) error {
 			if !d.isPureSpec() {
 				continue
 			}
-			// only if pk imports home or home is in an earlier layer: copy, qualifying identifiers
+			if !w.importsTransitively(pk, d.Pkg) && !w.selfContained(d, map[string]bool{}) {
+				continue
+			}
+			// copy, qualifying identifiers of the home package
 			e, err := parser.ParseExpr(d.Body)
 			if err != nil {
 				return fmt.Errorf("%s:%d: spec func %s: %v", d.File, d.Line, d.Name, err)
@@ -492,6 +532,12 @@ func (w *World) recheck(pk *Pkg) error {
 		}
 		fmt.Fprintf(&sb, "func %s(%s) %s { return %s }\n", d.Name, d.Params, d.Results, d.Body)
 	}
+	for _, d := range pk.Decls {
+		if d.Kind == "gocode" {
+			sb.WriteString(d.Body)
+			sb.WriteString("\n")
+		}
+	}
 	// lemma summaries L__req / L__ens (own lemmas, and pure lemmas of other packages)
 	for _, d := range w.Lemmas {
 		if d.Kind != "lemma" {
@@ -507,6 +553,18 @@ func (w *World) recheck(pk *Pkg) error {
 		}
 		if d.Pkg != pk.Path && !pure {
 			continue
+		}
+		if d.Pkg != pk.Path && !w.importsTransitively(pk, d.Pkg) {
+			sc := true
+			pn, _ := d.paramNamesTypes()
+			for _, c := range d.Clauses {
+				if (c.Kind == "requires" || c.Kind == "ensures") && !w.exprSelfContained(c.Text, pn, map[string]bool{}) {
+					sc = false
+				}
+			}
+			if !sc {
+				continue
+			}
 		}
 		var reqs, enss []string
 		ok := true
@@ -612,7 +670,7 @@ func (w *World) recheck(pk *Pkg) error {
 				switch c.Kind {
 				case "requires", "panics_iff":
 					fmt.Fprintf(&sb, "func %s(%s) bool { return %s }\n", c.FnName, strings.Join(ps, ", "), c.Text)
-				case "ensures":
+				case "ensures", "derived":
 					fmt.Fprintf(&sb, "func %s(%s) bool { return %s }\n", c.FnName, strings.Join(append(append(append([]string{}, ps...), gs...), rs...), ", "), c.Text)
 				case "ghost":
 					if lp, ok := anchored(c); ok {
@@ -674,7 +732,7 @@ func (w *World) recheck(pk *Pkg) error {
 					fmt.Fprintf(&sb, "func %s_req(%s) bool { return %s__req%s }\n", c.FnName, d.Params, ln, la)
 					continue
 				}
-				if c.Kind == "reveal" {
+				if c.Kind == "reveal" || c.Kind == "domain" {
 					c.FnName = ""
 					continue
 				}
@@ -693,6 +751,9 @@ func (w *World) recheck(pk *Pkg) error {
 			fmt.Fprintf(&sb, "func %s(%s) {\n%s}\n", d.Name, d.Params, useAllLocals(d.Body))
 		case "type":
 			for _, c := range d.Clauses {
+				if c.Kind != "invariant" {
+					continue
+				}
 				cn++
 				c.FnName = fmt.Sprintf("__c%d_inv_%s", cn, d.Name)
 				fmt.Fprintf(&sb, "func %s(self *%s) bool { return %s }\n", c.FnName, d.Name, c.Text)
@@ -760,4 +821,87 @@ func useAllLocals(body string) string {
 		}
 	}
 	return strings.Join(out, "\n")
+}
+
+func (w *World) importsTransitively(pk *Pkg, path string) bool {
+	seen := map[string]bool{}
+	var rec func(p *Pkg) bool
+	rec = func(p *Pkg) bool {
+		if seen[p.Path] {
+			return false
+		}
+		seen[p.Path] = true
+		for _, i := range p.Imports {
+			if i == path {
+				return true
+			}
+			if q, ok := w.Pkgs[i]; ok && rec(q) {
+				return true
+			}
+		}
+		return false
+	}
+	return rec(pk)
+}
+
+var preludeNames = map[string]bool{"implies": true, "ite": true, "old": true, "divf": true, "modf": true, "all": true, "exists": true, "rfloor": true,
+	"float64": true, "int": true, "true": true, "false": true, "bool": true, "len": true, "nil": true}
+
+// selfContained: the spec function's body mentions only its parameters, the prelude and other self-contained pure spec functions.
+func (w *World) selfContained(d *Decl, visiting map[string]bool) bool {
+	if d.Uninterp || !d.isPureSpec() {
+		return false
+	}
+	if visiting[d.Name] {
+		return true
+	}
+	visiting[d.Name] = true
+	pn, _ := d.paramNamesTypes()
+	return w.exprSelfContained(d.Body, pn, visiting)
+}
+
+func (w *World) exprSelfContained(text string, pn []string, visiting map[string]bool) bool {
+	e, err := parser.ParseExpr(text)
+	if err != nil {
+		return false
+	}
+	params := map[string]bool{}
+	for _, n := range pn {
+		params[n] = true
+	}
+	ok := true
+	var locals []map[string]bool
+	ast.Inspect(e, func(n ast.Node) bool {
+		switch y := n.(type) {
+		case *ast.FuncLit:
+			m := map[string]bool{}
+			for _, f := range y.Type.Params.List {
+				for _, nm := range f.Names {
+					m[nm.Name] = true
+				}
+			}
+			locals = append(locals, m)
+		case *ast.SelectorExpr:
+			ok = false
+			return false
+		case *ast.Ident:
+			if params[y.Name] || preludeNames[y.Name] {
+				return true
+			}
+			for _, m := range locals {
+				if m[y.Name] {
+					return true
+				}
+			}
+			if sd, isSpec := w.SpecFuncs[y.Name]; isSpec {
+				if !w.selfContained(sd, visiting) {
+					ok = false
+				}
+				return true
+			}
+			ok = false
+		}
+		return true
+	})
+	return ok
 }
